@@ -86,4 +86,6 @@ type HandlerPanic struct {
 	Value any
 }
 
-func (p *HandlerPanic) Error() string { return fmt.Sprintf("handler %s panicked: %v", p.Route, p.Value) }
+func (p *HandlerPanic) Error() string {
+	return fmt.Sprintf("handler %s panicked: %v", p.Route, p.Value)
+}
